@@ -5,13 +5,13 @@ import (
 	"encoding/json"
 	"fmt"
 	"math/big"
-	"strings"
 
 	ethcommon "github.com/ethereum/go-ethereum/common"
 	"github.com/ethereum/go-ethereum/core/types"
 	"github.com/polynetwork/poly/common/config"
 	hscommon "github.com/polynetwork/poly/native/service/header_sync/common"
 	"github.com/polynetwork/poly/native/service/header_sync/eth"
+	"github.com/polynetwork/poly/native/service/utils"
 	"verif.local/engine/lib/hsenv"
 )
 
@@ -103,11 +103,8 @@ func (a *ethAd) inspect(w *hsenv.Sim, rootH uint64) view {
 	ns := w.Reader()
 	v := view{Stored: map[string]rec{}, Main: map[uint64]string{}}
 	pre := hsenv.HSPrefix(hscommon.HEADER_INDEX, ethChainID)
-	for _, kv := range w.Dump() {
-		if !strings.HasPrefix(kv.K, pre) {
-			continue
-		}
-		hb := []byte(kv.K[len(pre):])
+	for _, k := range w.Keys(pre) {
+		hb := []byte(k[len(pre):])
 		hx := hex.EncodeToString(hb)
 		h, td, err := eth.GetHeaderByHash(ns, hb, ethChainID)
 		if err != nil {
@@ -146,21 +143,10 @@ func (a *ethAd) inspect(w *hsenv.Sim, rootH uint64) view {
 
 // rawMain reads MAIN_CHAIN[h] directly ("" if absent) — only used when the getter fails.
 func rawMain(w *hsenv.Sim, h uint64) string {
-	pre := hsenv.HSPrefix(hscommon.MAIN_CHAIN, ethChainID)
-	for _, kv := range w.Dump() {
-		if strings.HasPrefix(kv.K, pre) && len(kv.K) == len(pre)+8 {
-			var x uint64
-			for i := 7; i >= 0; i-- { // little endian (utils.GetUint64Bytes)
-				x = x<<8 | uint64(kv.K[len(pre)+i])
-			}
-			if x == h {
-				// value is a StorageItem: 1 byte version + varbytes; the 32-byte hash is the tail
-				val := []byte(kv.V)
-				if len(val) >= 32 {
-					return hex.EncodeToString(val[len(val)-32:])
-				}
-			}
-		}
+	k := hsenv.HSPrefix(hscommon.MAIN_CHAIN, ethChainID) + string(utils.GetUint64Bytes(h))
+	val := w.Raw(k) // StorageItem: version byte + var-bytes; the 32-byte hash is the tail
+	if len(val) >= 32 {
+		return hex.EncodeToString([]byte(val[len(val)-32:]))
 	}
 	return ""
 }
